@@ -309,7 +309,9 @@ impl GlobalInferenceCtx<'_> {
                             if dest_ty.is_weak_replaceable_by(&value_ty) {
                                 self.replace_weak_tys(assign_body.dest, value_ty);
                             } else if value_ty.can_fit_into(&dest_ty) {
-                                self.replace_weak_tys(assign_body.value, value_ty);
+                                // the value takes the type of what it's assigned to
+                                // (this is also where a literal gets checked against that type)
+                                self.replace_weak_tys(assign_body.value, dest_ty);
                             }
                         }
                     }
